@@ -5,6 +5,8 @@
 set -u
 SEED=$1; PROP=$2; RUNRE=${3:-.}
 export GOFLAGS=-mod=mod GOPROXY=off GOSUMDB=off GOTOOLCHAIN=local; unset GOWORK
+# every scratch worktree has its own path, so the Go build cache grows by a full build per seed: trim it when space runs low
+if [ "$(df --output=avail -BG / | tail -1 | tr -dc 0-9)" -lt 30 ]; then go clean -cache; fi
 WT=$(mktemp -d /var/tmp/seedwt.XXXXXX); rmdir $WT
 git -C /repo worktree add -q --detach $WT HEAD || exit 3
 trap 'git -C /repo worktree remove --force $WT >/dev/null 2>&1; rm -rf $WT' EXIT
